@@ -23,6 +23,7 @@ import (
 	"context"
 	"database/sql"
 	"errors"
+	"strings"
 	"sync"
 	"time"
 
@@ -381,8 +382,9 @@ func (s *subscriberServer) ListSubscriptions(
 
 	var resp *pubsubpb.ListSubscriptionsResponse
 	err := s.client.DoTx(ctx, nil, func(tx *ent.Tx) error {
+		prefix := projectSubscriptionPrefix(req.Project)
 		predicates := []predicate.Subscription{
-			subscription.NameHasPrefix(projectSubscriptionPrefix(req.Project)),
+			subscription.NameHasPrefix(prefix),
 			subscription.DeletedAtIsNil(),
 		}
 		if req.PageToken != "" {
@@ -403,9 +405,13 @@ func (s *subscriberServer) ListSubscriptions(
 		if err != nil {
 			return grpc.AsStatusError(err)
 		}
-		grpcSubscriptions := make([]*pubsubpb.Subscription, len(subs))
-		for i, sub := range subs {
-			grpcSubscriptions[i] = entSubscriptionToGrpc(sub, "", "")
+		grpcSubscriptions := make([]*pubsubpb.Subscription, 0, len(subs))
+		for _, sub := range subs {
+			// the SQL prefix match is case-insensitive on some backends (SQLite's
+			// LIKE), the project has to match exactly
+			if strings.HasPrefix(sub.Name, prefix) {
+				grpcSubscriptions = append(grpcSubscriptions, entSubscriptionToGrpc(sub, "", ""))
+			}
 		}
 		var nextPageToken string
 		if len(subs) >= int(pageSize) {
